@@ -89,6 +89,9 @@ func init() {
 const allocA = "(*internal/allocator.Allocator)."
 
 func runC02(p *chk.Prog, r *chk.Report) {
+	// a held address is re-validated against the current pools and Service on every sync (READOPT-EXIT, shared with C03)
+	readoptBeforeExitRule(p, r)
+	familyPairRule(p, r)
 	c02FamilyChanged(p, r)
 	c02FreeIP(p, r)
 	c02Member(p, r)
